@@ -454,6 +454,17 @@ func (h *cgH) observe(kind string) {
 	// and a probe. TimeUntilSend is still called here for every state without budget, so a
 	// panic inside it (division by a zero bandwidth) fails the run.
 	hasBudget := h.s.HasPacingBudget(now)
+	if !hasBudget && h.sentCount > 0 {
+		// A clock value that lies before the last send (a stale timestamp, e.g. the receive time of a packet): the budget
+		// only grows with time between sends, so an earlier instant cannot have what the present lacks
+		for _, d := range []time.Duration{1, time.Microsecond, time.Millisecond, time.Second, 1000 * time.Hour} {
+			if old := now.Add(-d); h.s.HasPacingBudget(old) {
+				h.fail("pacer grants a budget for a clock value in the past although it has none now", "now %d, asked for %v earlier; budget now %d, then %d, maxDatagramSize %d", now, d, h.s.pacer.Budget(now), h.s.pacer.Budget(old), h.mds)
+				return
+			}
+		}
+		h.res.Probe("pacer-asked-with-stale-clock")
+	}
 	if !hasBudget {
 		tus := h.s.TimeUntilSend(h.inflight)
 		h.res.Probe("pacing-no-budget")
